@@ -1069,3 +1069,85 @@ def rule_failed_transfer_forgets_position(ctx):
             ctx.holds("POSUNKNOWN", key, f.where(), "every failing exit after the stdio transfer has reassigned last_op", nontrivial=True)
     ctx.floor("POSUNKNOWN", 2, n, "(routines that transfer through stdio and maintain the cached position)")
     return n
+
+
+def rule_dirty_bits_independent(ctx):
+    """DIRTYBITS (C01, C02): `file_rec->dirty` is a set of independent bits (the DD list has changed; the end of the file has to
+    be extended), and a flush handles every bit that is set.  The tests of different bits are therefore separate `if`s, never
+    the arms of one if / else-if: with both bits set the second step - writing out the reserved end of the file - would be
+    skipped at Hclose, and an element that was given its space by Hstartwrite and only partly written reads back FAIL."""
+    from .codec import ast_walk
+    from .facts import int_name
+    prog = ctx.prog
+    n = 0
+    for f in prog.lib_funcs():
+        ast = f.raw.get("ast")
+        if not ast or not f.rel.endswith("hdf/src/hfile.c"):
+            continue
+        tests = []
+
+        def bit_of(c):
+            for x in walk(c, True):
+                if x[0] == "bin" and x[1] == "&" and kind(strip(x[2])) == "mem" and strip(x[2])[2] == "dirty" and int_name(x[3]):
+                    return int_name(x[3])
+            return None
+
+        def vis(nd, st):
+            if nd[0] == "if" and nd[1] is not None and bit_of(nd[1]):
+                # is this if the else-arm of another dirty-bit test?
+                parent = st[-1] if st else None
+                chained = parent is not None and parent[0] == "if" and parent[3] is nd and bit_of(parent[1]) and bit_of(parent[1]) != bit_of(nd[1])
+                tests.append((nd, bit_of(nd[1]), chained))
+            return True
+
+        ast_walk(ast, vis)
+        if len({b for _nd, b, _c in tests}) < 2:
+            continue
+        for k, (nd, b, chained) in enumerate(tests, 1):
+            n += 1
+            key = "DIRTYBITS:%s:%s#%d" % (f.name, b, k)
+            line = nd[-3] if isinstance(nd[-3], int) else f.line
+            if chained:
+                ctx.violated("DIRTYBITS", key, f.where(line), "the test of %s is the else-arm of the test of another dirty bit: when both are set this step of the flush is skipped" % b)
+            else:
+                ctx.holds("DIRTYBITS", key, f.where(line), "the test of %s stands on its own" % b, nontrivial=True)
+    ctx.floor("DIRTYBITS", 2, n, "(tests of the file record's dirty bits)")
+    return n
+
+
+def rule_sync_before_cache_off(ctx):
+    """SYNCFIRST (C02): HIsync writes the cached descriptors only while `file_rec->cache` is set.  A routine that turns the
+    cache off and flushes what is pending therefore calls HIsync *before* it stores the new value of `cache`; in the other
+    order the flush is a no-op, the descriptors created while caching was on never reach the file, and Hclose - cache now
+    off - does not write them either."""
+    from .codec import ast_walk
+    prog = ctx.prog
+    n = 0
+    for f in prog.lib_funcs():
+        ast = f.raw.get("ast")
+        if not ast or not f.rel.endswith("hdf/src/hfile.c"):
+            continue
+        order = []
+        ast_walk(ast, lambda nd, st: (order.append(nd) if nd[0] in ("s", "if") and nd[1] is not None else None, True)[1])
+        stored = None
+        sync = None
+        for i, nd in enumerate(order):
+            for x in walk(nd[1], True):
+                if x[0] == "asg" and x[1] == "=" and mem_field(x[2]) == ("filerec_t", "cache") and stored is None and not (is_int(x[3]) and f.name != "Hcache"):
+                    stored = i
+            if nd[0] == "if" and sync is None:
+                pass
+            for c in calls_in(nd[1], True):
+                if c[1] == "HIsync" and sync is None:
+                    sync = i
+        if stored is None or sync is None:
+            continue
+        n += 1
+        key = "SYNCFIRST:%s" % f.name
+        line = order[sync][-3] if isinstance(order[sync][-3], int) else f.line
+        if sync < stored:
+            ctx.holds("SYNCFIRST", key, f.where(line), "HIsync is called before the new caching state is stored", nontrivial=True)
+        else:
+            ctx.violated("SYNCFIRST", key, f.where(line), "file_rec->cache is assigned before HIsync is called: with caching just switched off the flush does nothing and the pending descriptors are never written")
+    ctx.floor("SYNCFIRST", 1, n, "(routines that change the caching state and flush)")
+    return n
